@@ -1,10 +1,16 @@
 """C11 — checked arithmetic reports true rounding relations; bounded builds never lie.
 
-1. rebuild PPL; regenerate the enum tables from the clang AST (T1: gen/c11_tables.py);
-2. `lake build PPLV.Props.C11 PPLV.Gen.ResultTable`, axiom audit, forbidden-construct grep;
+1. rebuild PPL; regenerate the enum tables from the clang AST (T1: gen/c11_tables.py) and the Lean model of the
+   pure scalar functions of src/checked_int_inlines.hh (T2: gen/c11_t2.py -> PPLV/Gen/CheckedT2.lean);
+2. `lake build PPLV.Props.C11 PPLV.Gen.ResultTable PPLV.Props.C11T2`, axiom audit, forbidden-construct grep;
+   PPLV.Props.C11T2 proves every regenerated definition equal to the hand-written model: when it no longer builds the
+   functions whose generated text changed are reported (diff against the committed text) and the correspondence below
+   is the search for a concrete failing input;
 3. compile harness/c11_checked.cc against the tree, check that its copy of
    Bounded_Integer_Coefficient_Policy carries the flags of src/Coefficient_types.hh;
-4. run, in parallel, a pipeline of random straight-line coefficient computations (bounded policy with
+4. run, in parallel, three pipelines (float, double, long double) of boundary-biased floating-point cases (every op of
+   checked_float_inlines.hh, conversions from/to ints, mpz, mpq and the other widths, all rounding directions and the
+   strict-relation flag), a pipeline of random straight-line coefficient computations (bounded policy with
    the real handle_result vs mpz_class: "bounded builds never lie" on the real code), one pipeline `harness | pplv_c11` per policy for the EXHAUSTIVE 8-bit tables
    (every operand pair x op x direction x policy) and one per policy for the boundary-biased /
    random 16/32/64-bit cases; the driver runs the code-shaped model and, independently,
@@ -18,10 +24,15 @@
 """
 import collections, hashlib, json, os, re, subprocess, time
 
-from .common import VERIF, REPO, LEAN, sh
+from .common import VERIF, REPO, LEAN, sh, Lock
 
 LEVEL = "proof"
+# a private tree (VERIF_REPO) gets its own harness binaries: compile_harness drops "stale" binaries of the same name,
+# which races with a concurrent run of this check on another tree
+_REPO_TAG = "" if REPO == "/repo" else "_" + hashlib.sha256(REPO.encode()).hexdigest()[:8]
 POLICIES = ["CO", "EN", "WRD", "BIC", "DBG", "CHK", "NAN", "INF"]
+FSITE = {"sqrt": "sqrt_float", "smod2exp": "mod_2exp_float", "umod2exp": "mod_2exp_float", "assignQ": "assign_float_mpq",
+         "assignZ": "assign_float_mpz", "addMul": "add_mul_float", "subMul": "add_mul_float"}
 SITE = {"div": "div_signed_int", "subMul": "sub_mul_int", "umod2exp": "umod_2exp_signed_int",
         "sqrt": "sqrt_signed_int", "lcm": "lcm_gcd_exact", "assignD": "assign_int_float", "assignF": "assign_int_float",
         "assignZ": "assign_int_mpz", "assignQ": "assign_int_mpq"}
@@ -57,7 +68,7 @@ def replay(ctx, path):
     Exit status 1 iff a property clause is still violated and the case matches no open known finding."""
     ctx.ensure_ppl()
     drv = ctx.ensure_pplv("pplv_c11")
-    h = ctx.compile_harness("c11_checked.cc", flags=("-frounding-math",))
+    h = ctx.compile_harness("c11_checked.cc", out_name="c11_checked" + _REPO_TAG, flags=("-frounding-math",))
     rep = json.load(open(path))
     case = rep.get("case") or {}
     print("property=C11 what=%s" % rep.get("what"))
@@ -88,22 +99,376 @@ def replay(ctx, path):
     return 1 if bad else 0
 
 
+
+# ---- T2: the model regenerated from the C++ source ------------------------------------------------------
+T2_GEN = os.path.join(LEAN, "PPLV", "Gen", "CheckedT2.lean")
+T2_OP_ROOTS = {
+    "neg": ["neg_signed_int", "neg_unsigned_int"], "abs": ["abs_generic", "assign_unsigned_int_unsigned_int"],
+    "add": ["add_signed_int", "add_unsigned_int"], "sub": ["sub_signed_int", "sub_unsigned_int"],
+    "mul": ["mul_signed_int", "mul_unsigned_int"], "div": ["div_signed_int", "div_unsigned_int"],
+    "idiv": ["idiv_signed_int", "idiv_unsigned_int"], "rem": ["rem_signed_int", "rem_unsigned_int"],
+    "addMul": ["add_mul_int"], "subMul": ["sub_mul_int"],
+    "add2exp": ["add_2exp_signed_int", "add_2exp_unsigned_int"], "sub2exp": ["sub_2exp_signed_int", "sub_2exp_unsigned_int"],
+    "mul2exp": ["mul_2exp_signed_int", "mul_2exp_unsigned_int"], "div2exp": ["div_2exp_signed_int", "div_2exp_unsigned_int"],
+    "smod2exp": ["smod_2exp_signed_int", "smod_2exp_unsigned_int"], "umod2exp": ["umod_2exp_signed_int", "umod_2exp_unsigned_int"],
+    "assign": ["assign_signed_int_signed_int", "assign_signed_int_unsigned_int", "assign_unsigned_int_signed_int",
+               "assign_unsigned_int_unsigned_int"],
+    "sqrt": ["sqrt_signed_int", "sqrt_unsigned_int", "round_gt_int", "assign_nan"],
+    "gcd": ["abs_generic", "assign_unsigned_int_unsigned_int", "rem_signed_int", "rem_unsigned_int"],
+    "lcm": ["abs_generic", "assign_unsigned_int_unsigned_int", "rem_signed_int", "rem_unsigned_int", "div_signed_int",
+            "div_unsigned_int", "mul_signed_int", "mul_unsigned_int"],
+}
+# what the extended layer (checked_ext_inlines.hh) of every operation calls
+T2_EXT_COMMON = ["assign_special_int", "assign_nan", "is_nan_int", "is_minf_int", "is_pinf_int", "classify_int", "sgn_generic"]
+
+
+def t2_split_defs(text):
+    return {m.group(1): m.group(2) for m in re.finditer(r"-- \[t2:(\w+)\]\n(.*?)\n-- \[end\]", text or "", re.S)}
+
+
+def t2_baseline():
+    """the generated text as last committed (git HEAD), else the snapshot shipped next to the translator"""
+    r = sh(["git", "-C", VERIF, "show", "HEAD:lean/PPLV/Gen/CheckedT2.lean"], stderr=subprocess.DEVNULL)
+    if r.returncode == 0 and "[t2:" in r.stdout:
+        return r.stdout, "git HEAD:lean/PPLV/Gen/CheckedT2.lean"
+    p = os.path.join(VERIF, "gen", "c11_t2_snapshot.txt")
+    if os.path.exists(p):
+        return open(p).read(), "gen/c11_t2_snapshot.txt"
+    return None, None
+
+
+def t2_regenerate(ctx, wd):
+    """run the translator; returns (report dict, {function: unified diff} of the definitions that differ from the
+    committed text, broken-obligation strings)"""
+    import difflib
+    t0 = time.time()
+    rep_path = os.path.join(wd, "t2_report.json")
+    r = sh(["python3", os.path.join(VERIF, "gen", "c11_t2.py"), REPO, T2_GEN, "--report", rep_path])
+    rep = json.load(open(rep_path)) if os.path.exists(rep_path) else {}
+    broken = []
+    if r.returncode:
+        unexpected = {k: v for k, v in rep.get("failed", {}).items() if k not in rep.get("expected_untranslated", {})}
+        for k, v in sorted(unexpected.items()):
+            broken.append("T2: `%s` is no longer in the C++ subset of the translator: %s" % (k, v))
+        for b in rep.get("dispatch_rule_violations", []) + rep.get("larger_rule_violations", []):
+            broken.append("T2 table: " + b)
+        if not broken:
+            broken.append("T2 translator failed: " + r.stdout[-600:])
+    base, base_name = t2_baseline()
+    new = open(T2_GEN).read() if os.path.exists(T2_GEN) else ""
+    changed = {}
+    if base is not None:
+        old_d, new_d = t2_split_defs(base), t2_split_defs(new)
+        for fn in sorted(set(old_d) | set(new_d)):
+            if old_d.get(fn) != new_d.get(fn):
+                changed[fn] = "\n".join(difflib.unified_diff((old_d.get(fn) or "").splitlines(), (new_d.get(fn) or "").splitlines(),
+                                                            "committed t2_" + fn, "regenerated t2_" + fn, lineterm=""))
+    ctx.cov["t2"] = {"translated": rep.get("translated", []), "not_translated": rep.get("failed", {}),
+                     "expected_not_translated": rep.get("expected_untranslated", {}),
+                     "externals_bound_to_the_hand_model": rep.get("externals_bound_to_the_hand_model", []),
+                     "dispatchers": rep.get("dispatchers", []), "ast_cache_hit": rep.get("ast_cache_hit"),
+                     "specialisation_lines_checked": rep.get("specialisation_lines_checked"),
+                     "larger_specialisations_checked": rep.get("larger_specialisations_checked"),
+                     "baseline": base_name, "definitions_differing_from_baseline": sorted(changed),
+                     "translator_s": round(time.time() - t0, 1)}
+    return rep, changed, broken
+
+
+def t2_failed_theorems(log):
+    """names of the agreement theorems at which `lake build PPLV.Props.C11T2` reports errors"""
+    names, files = [], {}
+    for m in re.finditer(r"^error: (?:\./)?(PPLV/[\w/]+\.lean):(\d+):\d+:", log, re.M):
+        f, line = m.group(1), int(m.group(2))
+        if f not in files:
+            try:
+                files[f] = open(os.path.join(LEAN, f)).read().splitlines()
+            except OSError:
+                files[f] = []
+        name = None
+        for l in files[f][:line][::-1]:
+            mm = re.match(r"\s*(?:theorem|def|example)\s+([\w.]+)", l)
+            if mm:
+                name = mm.group(1); break
+        tag = "%s:%s" % (f, name or line)
+        if tag not in names:
+            names.append(tag)
+    return names
+
+
+def t2_ops_reaching(fn, callgraph):
+    """{operation of the harness: call distance} for the operations whose kernel reaches the C++ function `fn`
+    (distance 0: `fn` is the primitive the operation is specialised to)"""
+    ops = {}
+    for op, roots in T2_OP_ROOTS.items():
+        dist = {r: 0 for r in roots}
+        for r in T2_EXT_COMMON:
+            dist.setdefault(r, 1)
+        todo = sorted(dist, key=dist.get)
+        while todo:
+            g = todo.pop(0)
+            for c in callgraph.get(g, []):
+                if c not in dist:
+                    dist[c] = dist[g] + 1
+                    todo.append(c)
+        if fn in dist:
+            ops[op] = dist[fn]
+    return ops
+
+
+T2_SEARCH_PRELUDE = """import PPLV.Gen.CheckedT2
+open PPLV.Gen.T2 PPLV.Checked PPLV.Checked.Result
+set_option linter.unusedVariables false
+def rangeI (lo hi : Int) : List Int := (List.range (hi - lo + 1).toNat).map (fun (i : Nat) => lo + (i : Int))
+def bvals (t : IntTy) : List Int :=
+       ([t.cmin, t.cmin + 1, t.cmin + 2, t.cmin + 3, -(t.half / 2) - 1, -(t.half / 2), -(t.half / 2) + 1, -7, -3, -2, -1, 0, 1, 2, 3,
+         5, 7, t.half / 2 - 1, t.half / 2, t.half / 2 + 1, t.half - 1, t.half, t.cmax - 3, t.cmax - 2, t.cmax - 1, t.cmax,
+         pow2 (t.bits / 2) - 1, pow2 (t.bits / 2), pow2 (t.bits / 2) + 1, -(pow2 (t.bits / 2)), 3037000500, -3037000500].filter
+        (fun v => decide (t.cmin ≤ v) && decide (v ≤ t.cmax))).eraseDups
+def vals (t : IntTy) : List Int := if t.bits ≤ 8 then rangeI t.cmin t.cmax else bvals t
+def nats : List Nat := [0, 1, 2, 3, 4, 5, 6, 7, 8, 9, 15, 16, 17, 31, 32, 33, 62, 63, 64, 65]
+def dirs : List (String × Dir) := [("0", .down), ("1", .up), ("6", .ignore), ("7", .notNeeded)]
+def clss : List (String × Cls) := [("nan", .nan), ("minf", .minf), ("pinf", .pinf), ("normal", .normal)]
+class Fmt (α : Type) where fmt : α → String
+instance : Fmt (Int × Result) := ⟨fun p => s!"{p.1},{p.2.toNat}"⟩
+instance : Fmt Result := ⟨fun r => s!"{r.toNat}"⟩
+instance : Fmt Bool := ⟨fun b => s!"{b}"⟩
+instance : Fmt Int := ⟨fun b => s!"{b}"⟩
+instance : Fmt Rel := ⟨fun r => s!"rel{r.toNat}"⟩
+"""
+
+
+def t2_model_search(ctx, fn, cfg_lines, wd):
+    """search the regenerated definition of `fn` against the hand-written model (the two sides of the theorem
+    C11.t2_<fn>_eq) for an input on which they differ: every operand of the 8-bit types, boundary values of the wider ones
+    (boundary values only for the three-operand add_mul / sub_mul), every policy of the harness, every direction.  -> dict of the counterexample or None"""
+    src = open(os.path.join(LEAN, "PPLV", "Props", "C11T2.lean")).read()
+    m = re.search(r"theorem t2_%s_eq ((?:\([^()]*\)\s*)*):\s+(.*?) :=\s*\n" % re.escape(fn), src)
+    if not m:
+        return None
+    binders = [(b.group(1).split(), b.group(2).strip()) for b in re.finditer(r"\(([^():]+):([^()]*)\)", m.group(1))]
+    if " = " not in m.group(2):
+        return None
+    lhs, rhs = m.group(2).split(" = ", 1)
+    tys = [l.split()[2:] for l in cfg_lines if l.startswith("cfg type ")]
+    pols = [l.split()[2:] for l in cfg_lines if l.startswith("cfg policy ")]
+    if not tys or not pols:
+        return None
+    b = lambda x: "true" if x == "1" else "false"
+    ty_l = ", ".join('("%s", ({ bits := %s, signed := %s, useNeg := %s, useAdd := %s, useSub := %s, useMul := %s, lbits := %s } : IntTy))'
+                     % (t[0], t[1], b(t[2]), b(t[3]), b(t[4]), b(t[5]), b(t[6]), t[7])
+                     for t in sorted(tys, key=lambda t: (int(t[1]) <= 8, int(t[1]))))      # the wide types first (few values)
+    pol_l = ", ".join('("%s", (⟨%s⟩ : Policy))' % (q[0], ", ".join(b(x) for x in q[1:11])) for q in pols)
+    sg = {"t": None, "f": None}
+    ma = re.match(r"assign_(signed|unsigned)_int_(signed|unsigned)_int$", fn)
+    if ma:
+        sg["t"], sg["f"] = ma.group(1) == "signed", ma.group(2) == "signed"
+    elif fn.endswith("_unsigned_int"):
+        sg["t"] = False
+    elif fn.endswith("_signed_int") or fn == "abs_generic":
+        sg["t"] = True
+    int_names = [n for ns, ty in binders if ty == "Int" for n in ns]
+    wide_to = int_names == ["to0"] or fn in ("add_mul_int", "sub_mul_int")
+    loops, shown, filters = [], [], []
+    for ns, ty in binders:
+        for n in ns:
+            if ty == "IntTy":
+                loops.append("for (%sN, %s) in tys do" % (n, n))
+                shown.append("%s={%sN}" % ("T" if n == "t" else "F", n))
+                if sg.get(n) is not None:
+                    filters.append("%s.signed == %s" % (n, "true" if sg[n] else "false"))
+            elif ty == "Policy":
+                if n in ("π", "πt", "πf"):
+                    loops.append("for (%sN, %s) in pols do" % (n, n))
+                    shown.append("%s={%sN}" % ("P" if n != "πf" else "PF", n))
+                else:
+                    loops.append("for %s in [(default : Policy)] do" % n)
+            elif ty == "Dir":
+                loops.append("for (%sN, %s) in dirs do" % (n, n)); shown.append("dir={%sN}" % n)
+            elif ty == "Cls":
+                loops.append("for (%sN, %s) in clss do" % (n, n)); shown.append("c={%sN}" % n)
+            elif ty == "Bool":
+                loops.append("for %s in [false, true] do" % n); shown.append("%s={%s}" % (n, n))
+            elif ty == "Result":
+                loops.append("for %s in [V_DIV_ZERO, V_EQ] do" % n); shown.append("%s={%s.toNat}" % (n, n))
+            elif ty == "Nat":
+                loops.append("for %s in nats do" % n); shown.append("%s={%s}" % (n, n))
+            elif ty == "Int":
+                owner = "f" if n == "frm" and any("f" in ns2 and ty2 == "IntTy" for ns2, ty2 in binders) else "t"
+                if n == "to0" and not wide_to:
+                    loops.append("for to0 in [(5 : Int)] do")
+                else:
+                    loops.append("for %s in %s %s do" % (n, "bvals" if fn in ("add_mul_int", "sub_mul_int") else "vals", owner))
+                shown.append("%s={%s}" % ("x" if n in ("frm", "v") else n, n))
+            elif re.match(r"^t\.signed = true$", ty):
+                filters.append("t.signed == true")
+            elif re.match(r"^t\.inRange \w+$", ty):
+                v = ty.split()[-1]
+                filters.append("decide (t.cmin ≤ %s) && decide (%s ≤ t.cmax)" % (v, v))
+            else:
+                return None
+    # the IntTy / Policy / Dir loops outermost, the operands innermost; filters as early as possible is not needed
+    order = {"tys": 0, "pols": 1, "[(default": 1, "dirs": 2, "clss": 2, "[false,": 2, "[V_DIV_ZERO,": 2, "nats": 3}
+    loops.sort(key=lambda l: order.get(l.split(" in ")[1].split()[0], 4))
+    body = "def search : String := Id.run do\n"
+    ind = "  "
+    for l in loops:
+        body += ind + l + "\n"
+        ind += "  "
+    cond = " && ".join(["(%s)" % f for f in filters] + ["(%s) != (%s)" % (lhs, rhs)])
+    body += ind + "if %s then\n" % cond
+    body += ind + '  return s!"CEX %s generated={Fmt.fmt (%s)} model={Fmt.fmt (%s)}"\n' % (" ".join(shown), lhs, rhs)
+    body += '  return "NONE"\n#eval search\n'
+    path = os.path.join(wd, "t2_search_%s.lean" % fn)
+    with open(path, "w") as f:
+        f.write(T2_SEARCH_PRELUDE + "def tys : List (String × IntTy) := [%s]\ndef pols : List (String × Policy) := [%s]\n" % (ty_l, pol_l) + body)
+    try:
+        r = sh(["lake", "env", "lean", path], cwd=LEAN, timeout=240)
+    except subprocess.TimeoutExpired:
+        return {"error": "search timed out", "script": path}
+    mm = re.search(r'"CEX ([^"]*)"', r.stdout)
+    if not mm:
+        return {"error": None if '"NONE"' in r.stdout else r.stdout[-600:], "script": path, "none": '"NONE"' in r.stdout}
+    cex = dict(tok.split("=", 1) for tok in mm.group(1).split(" ") if "=" in tok)
+    cex["script"] = path
+    return cex
+
+
+def t2_replay_on_library(ctx, fn, cex, h, drv):
+    """run the counterexample of the equality on the real library (when `fn` is the primitive of an operation of the
+    harness) -> (description, property clauses violated or None, crashed)"""
+    ops = [op for op, roots in T2_OP_ROOTS.items() if fn in roots and op not in ("assign", "sqrt", "gcd", "lcm")]
+    if len(ops) != 1 or "T" not in cex or "P" not in cex:
+        return None
+    op = ops[0]
+    if op == "abs" and fn == "assign_unsigned_int_unsigned_int":
+        return None
+    args = [cex["T"], cex["P"], op, cex.get("dir", "0"), cex.get("to0", "0"), cex.get("x", "0"), cex.get("y", "0"), cex.get("e", cex.get("exp", "0"))]
+    env = dict(os.environ); env["LD_LIBRARY_PATH"] = os.path.join(REPO, "src", ".libs")
+    r = subprocess.run([h, "--mode", "one"] + args, env=env, stdout=subprocess.PIPE, stderr=subprocess.PIPE, text=True)
+    cmd = "LD_LIBRARY_PATH=%s/src/.libs %s --mode one %s | %s" % (REPO, h, " ".join(args), drv)
+    case = {"T": args[0], "P": args[1], "op": op, "dir": args[3], "to0": args[4], "x": args[5], "y": args[6], "e": args[7]}
+    if r.returncode < 0 or r.returncode >= 128:
+        return {"case": case, "replay_cmd": cmd, "crash": "the library traps on this input (exit status %d)" % r.returncode, "clauses": None}
+    d = subprocess.run([drv], input=r.stdout, stdout=subprocess.PIPE, text=True)
+    for line in d.stdout.splitlines():
+        m = MIS_RE.match(line)
+        if m:
+            f_ = parse_fields(m.group(3))
+            tags = [t for t in f_.get("tags", "").split(",") if t]
+            clauses = sorted(set(m.group(2).split("+")) & PROPERTY_OBLIGATIONS)
+            if clauses and ctx.match_known({"site": SITE.get(op, op), "tags": tags}) is not None:
+                clauses = []
+            return {"case": case, "replay_cmd": cmd, "crash": None, "clauses": clauses, "real": f_.get("real"), "model": f_.get("model"),
+                    "exact": f_.get("exact")}
+    return {"case": case, "replay_cmd": cmd, "crash": None, "clauses": [], "real": "= model", "model": None, "exact": None}
+
+
+def t2_report_break(ctx, rep, changed, fail, groups, h, drv, cfg_lines, wd):
+    """PPLV.Props.C11T2 no longer builds: one VIOLATION per C++ function whose regenerated definition changed, carrying
+    the concrete failing input the correspondence found for an operation whose kernel reaches that function"""
+    cg = rep.get("callgraph", {})
+    where = rep.get("where", {})
+    fns = sorted(changed)
+    if not fns:      # nothing differs from the committed text: the hand-written side (or the proof) was edited
+        fns = sorted(set(t.split(":")[-1].replace("_eq", "") for t in fail["failed_at"])) or ["?"]
+    for fn in fns:
+        ops = t2_ops_reaching(fn, cg)
+        best = None
+        for key, g in groups.items():
+            opk, prop, special, parse = key
+            if parse or opk == "prog" or "float" in (g.get("tags") or []) or not g.get("fields"):
+                continue
+            base = "assign" if opk.startswith("assign") else opk
+            if ops and base not in ops:
+                continue
+            if prop != "model" and ctx.match_known({"site": SITE.get(opk, opk), "tags": g["tags"]}) is not None:
+                continue
+            rank = (0 if prop != "model" else 1, ops.get(base, 9), g["first"] if g["first"] is not None else 1 << 80)
+            if best is None or rank < best[0]:
+                best = (rank, opk, prop, g)
+        what = ("T2: the Lean definition regenerated from the C++ source of `%s` (%s) is no longer the model the C11 theorems are "
+                "about: PPLV.Props.C11T2 does not build (fails at %s)" % (
+                    fn, where.get(fn, "src/checked_int_inlines.hh"), ", ".join(fail["failed_at"][:4]) or "?"))
+        replay = {"t2_function": fn, "source": where.get(fn), "generated_definition_diff": changed.get(fn, "(the generated text equals the committed one)"),
+                  "lake_errors": fail["errors"], "operations_reaching_the_function": sorted(ops),
+                  "all_functions_whose_generated_text_changed": sorted(changed)}
+        if best is not None:
+            _, opk, prop, g = best
+            f_ = g["fields"]
+            d = int(f_.get("dir", "0") or 0)
+            what += ("; concrete input: %s on %s/%s, %s: to0=%s x=%s y=%s e=%s: the library stored %s with result code %s, the model says %s%s"
+                     % (opk, f_.get("T"), f_.get("P"), DIRNAME.get(d & 7, str(d)), f_.get("to0"), f_.get("x"), f_.get("y"), f_.get("e"),
+                        f_.get("real", "?").split(",")[0], f_.get("real", "?,?").split(",")[-1], f_.get("model"),
+                        (", exact result %s: clause(s) %s violated" % (f_.get("exact"), prop)) if prop != "model" else
+                        " (every property clause still holds of the real output: a change of behaviour, not of the property)"))
+            replay.update({"case": f_, "obligations": prop, "count_in_this_run": g["count"],
+                           "replay_cmd": "LD_LIBRARY_PATH=%s/src/.libs %s --mode one %s %s %s %s %s %s %s %s | %s" % (
+                               REPO, h, f_.get("T"), f_.get("P"), opk, f_.get("dir"), f_.get("to0"), f_.get("x"), f_.get("y"),
+                               f_.get("e"), drv)})
+        found = best is not None
+        if best is None and (fn in rep.get("translated", []) or fn.startswith("Extended_Int_")):
+            # no case of the correspondence names this function (the library may have trapped before reaching it):
+            # search the two sides of the broken equality, then run what is found on the real library
+            cex = t2_model_search(ctx, fn, cfg_lines, wd)
+            replay["model_search"] = cex
+            if cex and "generated" in cex:
+                what += ("; input on which the regenerated definition and the model differ: %s: regenerated (stored,code)=%s, model=%s"
+                         % (" ".join("%s=%s" % (k, v) for k, v in cex.items() if k not in ("generated", "model", "script")),
+                            cex["generated"], cex["model"]))
+                lib = t2_replay_on_library(ctx, fn, cex, h, drv)
+                replay["on_the_real_library"] = lib
+                if lib is not None:
+                    replay["case"], replay["replay_cmd"] = lib["case"], lib["replay_cmd"]
+                    if lib["crash"]:
+                        what += "; " + lib["crash"]
+                        found = True
+                    elif lib["clauses"]:
+                        what += "; on the real library: stored,code=%s, exact result %s: clause(s) %s violated" % (
+                            lib.get("real"), lib.get("exact"), "+".join(lib["clauses"]))
+                        found = True
+                    elif lib.get("real") != "= model":
+                        what += "; on the real library: stored,code=%s (the model: %s); every property clause holds of it" % (
+                            lib.get("real"), lib.get("model"))
+                        found = True
+        ctx.violation(what, replay, found_input=found)
+
+
 def run(ctx):
     ctx.ensure_ppl()
-    # ---- T1: regenerate the enum tables from the source ---------------------------------------
-    gen_out = os.path.join(LEAN, "PPLV", "Gen", "ResultTable.lean")
-    r = sh(["python3", os.path.join(VERIF, "gen", "c11_tables.py"), REPO, gen_out])
-    gen_broken = []
-    if r.returncode:
-        gen_broken.append("T1 translator failed: " + r.stdout[-400:])
-    # ---- proofs ----------------------------------------------------------------------------------
-    broken = gen_broken + ctx.prove(["PPLV.Props.C11", "PPLV.Gen.ResultTable"])
+    # the generated Lean files are shared by every run (also runs against a private mutant tree): regenerate and build
+    # them under one lock
+    with Lock("c11-gen"):
+        # ---- T1: regenerate the enum tables from the source ---------------------------------------
+        gen_out = os.path.join(LEAN, "PPLV", "Gen", "ResultTable.lean")
+        r = sh(["python3", os.path.join(VERIF, "gen", "c11_tables.py"), REPO, gen_out])
+        gen_broken = []
+        if r.returncode:
+            gen_broken.append("T1 translator failed: " + r.stdout[-400:])
+        wd = ctx.workdir()
+        # ---- T2: regenerate the Lean model of the scalar kernel from the C++ source (gen/c11_t2.py) ----
+        t2_rep, t2_changed, t2_broken = t2_regenerate(ctx, wd)
+        gen_broken += t2_broken
+        # ---- proofs ----------------------------------------------------------------------------------
+        t2_t0 = time.time()
+        t2_ok, t2_log = ctx.lake_build(["PPLV.Props.C11T2"])
+        ctx.cov["t2"]["lake_build_s"] = round(time.time() - t2_t0, 1)
+        broken = gen_broken + ctx.prove(["PPLV.Props.C11", "PPLV.Gen.ResultTable"] + (["PPLV.Props.C11T2"] if t2_ok else []))
+        t2_fail = None
+        if not t2_ok:
+            # the regenerated definitions are no longer the model the C11 theorems are about: reported after the
+            # correspondence below, which is the search for a concrete failing input
+            thms = ctx.theorem_names(os.path.join(LEAN, "PPLV", "Props", "C11T2.lean"))
+            ctx.obligations += len(thms)
+            ctx.obligation_names += thms
+            t2_fail = {"failed_at": t2_failed_theorems(t2_log), "errors": [l for l in t2_log.splitlines() if l.startswith("error")][:8],
+                       "log_tail": t2_log[-2500:]}
+            ctx.cov["t2"]["agreement_broken_at"] = t2_fail["failed_at"]
     if ctx.tier == "thorough":
-        broken += ctx.leanchecker(["PPLV.Props.C11"])
+        broken += ctx.leanchecker(["PPLV.Props.C11"] + (["PPLV.Props.C11T2"] if t2_ok else []))
     drv = ctx.ensure_pplv("pplv_c11")
     # -frounding-math as in PPL's own build: the inline float kernel relies on the run-time rounding mode
-    h = ctx.compile_harness("c11_checked.cc", flags=("-frounding-math",))
-    wd = ctx.workdir()
+    h = ctx.compile_harness("c11_checked.cc", out_name="c11_checked" + _REPO_TAG, flags=("-frounding-math",))
+    hf = ctx.compile_harness("c11_float.cc", out_name="c11_float" + _REPO_TAG, flags=("-frounding-math",))
 
     # ---- the harness's copy of Bounded_Integer_Coefficient_Policy vs the source -------------------
     rc, cfg_out, _ = ctx.run([h, "--mode", "cfg"])
@@ -147,6 +512,12 @@ def run(ctx):
     outp_ = os.path.join(wd, "prog.out")
     cmd = "%s --mode prog --seed %d --count %d | %s > %s" % (h, ctx.seed, nprog, drv, outp_)
     procs.append(("prog", "BIC", outp_, None, subprocess.Popen(["bash", "-c", "set -o pipefail; " + cmd], env=env)))
+    # floating point (checked_float_inlines.hh and the float <-> mpz/mpq conversions): judged on the real output
+    nfloat = 40000 if ctx.tier == "quick" else 500000
+    for fmt in ("f32", "f64", "f80"):
+        outf = os.path.join(wd, "float_%s.out" % fmt)
+        cmd = "%s --mode float --fmt %s --seed %d --count %d | %s > %s" % (hf, fmt, ctx.seed, nfloat, drv, outf)
+        procs.append(("float", fmt, outf, None, subprocess.Popen(["bash", "-c", "set -o pipefail; " + cmd], env=env)))
     for kind, p, outp, jw, pr in procs:
         rc = pr.wait()
         if rc != 0:
@@ -256,8 +627,8 @@ def run(ctx):
                         opk, f_.get("T"), f_.get("P"), DIRNAME.get(d & 7, str(d)), f_.get("to0"), f_.get("x"), f_.get("y"),
                         f_.get("e"), f_.get("real", "?").split(",")[0], f_.get("real", "?,?").split(",")[-1],
                         f_.get("exact"), prop, g["count"]))
-            ctx.violation(what, replay, found_input=True,
-                          record={"site": SITE.get(opk, opk), "tags": g["tags"]})
+            site = FSITE.get(opk, opk + "_float") if "float" in g["tags"] else SITE.get(opk, opk)
+            ctx.violation(what, replay, found_input=True, record={"site": site, "tags": g["tags"]})
         else:
             n_model_only += g["count"]
             what = ("correspondence break: %s on %s/%s dir=%s to0=%s x=%s y=%s e=%s: library (stored,code)=%s, "
@@ -269,6 +640,8 @@ def run(ctx):
         # a broken obligation: the correspondence above is the search for a failing input in the
         # implementation; here only the obligation itself is reported
         ctx.violation("proof obligation broken: " + b, {"obligation": b}, found_input=False)
+    if t2_fail is not None:
+        t2_report_break(ctx, t2_rep, t2_changed, t2_fail, groups, h, drv, cfg_lines, wd)
 
     ctx.assumptions += [
         "division/remainder by zero with check_div_zero off, inf-inf / inf/inf / inf mod with the corresponding check off, "
@@ -278,7 +651,11 @@ def run(ctx):
         "Bounded_Integer_Coefficient_Policy is instantiated through a flag-identical local copy (flags compared with the source text at every run)",
         "theorems cover the native-integer kernel and the extended layer; conversions from mpz/mpq are modelled by their effect and "
         "checked by correspondence, conversions from double/float are judged on the real output only (K4 on the exact dyadic value); "
-        "the mpz/mpq/float arithmetic kernels are not modelled (stage 2)",
+        "the mpz/mpq arithmetic kernels are not modelled; the floating-point kernel (float, double, long double; policies CO, EN, WRD, DBG) "
+        "is judged on its real output against the exact rational result by the proved judges (C11.float_judge_sound); only assign_float_mpz "
+        "is modelled and proved for every format (C11.assign_float_mpz_holds); sqrt is compared through squares",
+        "float contract: a NaN-producing situation that the policy checks neither specifically nor through check_fpu_nan_result, and a "
+        "division / remainder by zero without check_div_zero, are outside the contract (skipped, counted)",
         "the harness is compiled with -frounding-math like the library itself (without it GCC expands rint() inline assuming round-to-nearest "
         "and assign_r(int, negative non-integer double, ROUND_UP) returns floor with V_LT)",
     ]
@@ -290,6 +667,7 @@ def run(ctx):
         exhaustive=True,
         exhaustive_8bit_cases=exhaustive_cases,
         wide_cases=wide_cases,
+        float_cases=sum(v["n"] for k, v in per_type.items() if k.startswith("f")),
         bounded_programs=per_op.get("prog", {}).get("n", 0),
         bounded_programs_that_threw=per_op.get("prog", {}).get("nontrivial", 0),
         wide_distinct_nontrivial=len(seen),
@@ -303,5 +681,7 @@ def run(ctx):
         samples=samples[:40],
         pipeline_s=round(pipe_s, 1),
         translators=["gen/c11_tables.py (clang AST -> PPLV/Gen/ResultTable.lean, theorems re-checked at every run)",
+                     "gen/c11_t2.py (clang AST of the uninstantiated templates of checked_int_inlines.hh -> PPLV/Gen/CheckedT2.lean; "
+                     "PPLV/Props/C11T2.lean proves every regenerated definition equal to the hand-written model at every run)",
                      "harness cfg lines: Larger<T> routing constants and policy flags of the build are read by the driver, not hard-coded"],
     )
